@@ -1,4 +1,171 @@
-(* placeholder until C07/Proofs*.v land: nothing is claimed proved yet *)
-From V Require Import C07.Glue.
-Theorem c07_placeholder : True. Proof. exact I. Qed.
-Print Assumptions c07_placeholder.
+(* C07 - Histogram points are exact summaries of the recorded values.
+   Property theorems about the Gallina model (coq/C07/Model.v), which is tied to the C++ on every run
+   by the correspondence check.  Statements only; the proofs are in coq/C07/Proofs*.v.
+
+   Conventions: a finite double is an integer number of units 2^-s (0 <= s <= 1074, Model.v);
+   [ops_of KLong s] / [ops_of KDbl s] are the long / double instrument; [agg o c xs] is the aggregation that
+   recorded the values xs in this order under config c; [In_bucket bs i v] says b[i-1] < v <= b[i]
+   (no lower limit for i = 0, no upper limit for i = length bs). *)
+From V Require Import C07.Spec C07.ProofsBucket C07.ProofsAgg C07.ProofsNum C07.ProofsSeries C07.ProofsSpec.
+From V Require Import Gen.Consts.
+From Coq Require Import Permutation.
+Local Open Scope Z_scope.
+
+(* ---- sentence 1: every value is counted in exactly one bucket, the one with b[i-1] < v <= b[i] ---- *)
+Theorem bucket_spec :
+  forall bs v, sorted bs ->
+    (bucket bs v <= length bs)%nat /\ In_bucket bs (bucket bs v) v /\
+    (forall i, (i <= length bs)%nat -> In_bucket bs i v -> i = bucket bs v).
+Proof. exact bucket_spec_lemma. Qed.
+Print Assumptions bucket_spec.
+
+(* counts_[i] of an aggregation is the number of recorded values v with b[i-1] < v <= b[i], for both kinds *)
+Theorem bucket_counts_spec :
+  forall k s c xs, sorted (c_bounds c) -> Z.of_nat (length xs) < U64 -> key_exact k s xs ->
+    h_counts (agg (ops_of k s) c xs) = ideal_counts k s (c_bounds c) xs.
+Proof. exact counts_are_ideal. Qed.
+Print Assumptions bucket_counts_spec.
+
+(* the comparison key of the double instrument is the value; of the long instrument it is the value as long as
+   |v| <= 2^53 (the full statement, for every int64, is refuted below: F8b) *)
+Theorem bucket_spec_double_key : forall s xs, key_exact KDbl s xs.
+Proof. exact key_exact_dbl. Qed.
+Print Assumptions bucket_spec_double_key.
+Theorem bucket_spec_long_partial :
+  forall s xs, 0 <= s -> (forall v, In v xs -> Z.abs v <= 2 ^ 53) -> key_exact KLong s xs.
+Proof. exact key_exact_long. Qed.
+Print Assumptions bucket_spec_long_partial.
+Theorem bucket_spec_long_refuted :
+  exists s bs v, sorted bs /\ 0 <= s /\
+    ~ In_bucket bs (bucket bs (o_key (long_ops s) v)) (true_key KLong s v).
+Proof. exact bucket_spec_long_refuted_lemma. Qed.
+Print Assumptions bucket_spec_long_refuted.
+
+(* ---- sentence 2: the bucket counts add up to count, which is the number of values ---- *)
+Theorem counts_sum_to_count :
+  forall o c xs, Z.of_nat (length xs) < U64 ->
+    zsum (h_counts (agg o c xs)) = h_count (agg o c xs) /\ h_count (agg o c xs) = Z.of_nat (length xs).
+Proof. exact counts_sum_to_count_lemma. Qed.
+Print Assumptions counts_sum_to_count.
+
+(* ---- sentence 3: sum is the sum of the values (int64: no overflow assumed; double: on runs without rounding,
+        decided by the order-independent criterion exact_ms) ---- *)
+Theorem sum_is_sum :
+  forall o c xs, exact_add o -> h_sum (agg o c xs) = SFin (zsum xs).
+Proof. exact sum_is_sum_lemma. Qed.
+Print Assumptions sum_is_sum.
+Theorem sum_is_sum_double_exact :
+  forall s c xs, 0 <= s -> exact_ms s xs = true -> h_sum (agg (dbl_ops s) c xs) = SFin (zsum xs).
+Proof. exact sum_is_sum_dbl_lemma. Qed.
+Print Assumptions sum_is_sum_double_exact.
+Theorem exact_criterion_sound :
+  forall s xs, 0 <= s -> exact_ms s xs = true -> exists q, exact_q s q xs.
+Proof. exact exact_ms_sound. Qed.
+Print Assumptions exact_criterion_sound.
+
+(* ---- sentence 4: min and max, when enabled, are the smallest and the largest recorded value ---- *)
+Theorem min_max_spec :
+  forall o c xs,
+    c_rmm c = true -> xs <> [] -> (forall v, In v xs -> o_max0 o <= v <= o_min0 o) ->
+    let h := agg o c xs in
+    h_rmm h = true /\
+    In (h_min h) xs /\ (forall v, In v xs -> h_min h <= v) /\
+    In (h_max h) xs /\ (forall v, In v xs -> v <= h_max h).
+Proof. exact min_max_spec_lemma. Qed.
+Print Assumptions min_max_spec.
+(* the hypothesis on the sentinels holds for every finite double and every int64 (F8 stays repaired) *)
+Theorem double_values_within_sentinels :
+  forall s b d, 0 <= s -> decode b = Some d -> o_max0 (dbl_ops s) <= to_scale s d <= o_min0 (dbl_ops s).
+Proof. exact double_within_sentinels. Qed.
+Print Assumptions double_values_within_sentinels.
+Theorem long_values_within_sentinels :
+  forall s v, - 2 ^ 63 <= v < 2 ^ 63 -> o_max0 (long_ops s) <= v <= o_min0 (long_ops s).
+Proof. exact long_within_sentinels. Qed.
+Print Assumptions long_values_within_sentinels.
+
+(* a point depends on the multiset of values only *)
+Theorem agg_order_independent :
+  forall o c xs ys, exact_add o -> Permutation xs ys -> agg o c xs = agg o c ys.
+Proof. exact agg_perm. Qed.
+Print Assumptions agg_order_independent.
+
+(* ---- sentence 5: combining intervals is lossless ---- *)
+Theorem merge_homomorphism :
+  forall o c xs ys, exact_add o -> merge o (agg o c xs) (agg o c ys) = agg o c (xs ++ ys).
+Proof. exact merge_homomorphism_lemma. Qed.
+Print Assumptions merge_homomorphism.
+(* double instrument: every field but the sum unconditionally, the whole point when no addition rounds *)
+Theorem merge_homomorphism_double_fields :
+  forall o c xs ys,
+    set_sum (merge o (agg o c xs) (agg o c ys)) (SFin 0) = set_sum (agg o c (xs ++ ys)) (SFin 0).
+Proof. exact merge_homomorphism_fields. Qed.
+Print Assumptions merge_homomorphism_double_fields.
+Theorem merge_homomorphism_double_exact :
+  forall s c xs ys, 0 <= s -> exact_ms s (xs ++ ys) = true ->
+    merge (dbl_ops s) (agg (dbl_ops s) c xs) (agg (dbl_ops s) c ys) = agg (dbl_ops s) c (xs ++ ys).
+Proof. exact merge_homomorphism_dbl_lemma. Qed.
+Print Assumptions merge_homomorphism_double_exact.
+
+Theorem merge_assoc :
+  forall o a b c, add_assoc o -> merge o (merge o a b) c = merge o a (merge o b c).
+Proof. exact merge_assoc_lemma. Qed.
+Print Assumptions merge_assoc.
+Theorem merge_comm :
+  forall o a b, add_comm o -> h_bounds a = h_bounds b -> h_rmm_mem a = h_rmm_mem b -> merge o a b = merge o b a.
+Proof. exact merge_comm_lemma. Qed.
+Print Assumptions merge_comm.
+(* int64 addition is associative and commutative, double addition commutative (not associative) *)
+Theorem long_add_assoc_comm : (forall s, add_assoc (long_ops s)) /\ (forall s, add_comm (long_ops s)) /\ (forall s, add_comm (dbl_ops s)).
+Proof. exact (conj (fun _ => xadd_assoc) (conj (fun _ => xadd_comm) fadd_comm)). Qed.
+Print Assumptions long_add_assoc_comm.
+
+(* Diff gives the delta's counts and count back; the sum is not computed (F8c) *)
+Theorem diff_inverts_merge_partial :
+  forall o c xs ys,
+    let d := diff o (agg o c xs) (merge o (agg o c xs) (agg o c ys)) in
+    h_counts d = h_counts (agg o c ys) /\ h_count d = h_count (agg o c ys) /\ h_bounds d = h_bounds (agg o c ys).
+Proof. exact diff_inverts_merge_lemma. Qed.
+Print Assumptions diff_inverts_merge_partial.
+Theorem diff_inverts_merge_sum_refuted :
+  exists o c xs ys, exact_add o /\
+    h_sum (diff o (agg o c xs) (merge o (agg o c xs) (agg o c ys))) <> h_sum (agg o c ys).
+Proof. exact diff_sum_refuted_lemma. Qed.
+Print Assumptions diff_inverts_merge_sum_refuted.
+
+(* readers: for every history of Record / Collect over any number of readers of mixed temporality, a delta reader
+   is handed the aggregation of exactly the values since its previous collection, a cumulative reader that of all
+   values so far, and nothing only when that list is empty *)
+Theorem reader_lossless :
+  forall o c, exact_add o -> forall temps l, Forall (valid_sop temps) l ->
+    Forall2 (ok o c) (expect_sops temps (repeat [] (length temps)) [] l)
+            (run_sops o c temps (sstate0 (length temps)) l).
+Proof. exact series_lossless_lemma. Qed.
+Print Assumptions reader_lossless.
+
+(* ---- the model meets the executable SPEC (what ./check evaluates on the implementation's points) ---- *)
+Theorem model_meets_spec :
+  forall k s c x xs,
+    0 <= s -> sorted (c_bounds c) -> Z.of_nat (length xs) < U64 -> key_exact k s xs -> within_sentinels k s xs ->
+    x_minmax x = c_rmm c -> x_sum_tainted x = false ->
+    check_point k s (c_bounds c) x xs (point_of (agg (ops_of k s) c xs)) = [].
+Proof. exact check_point_agg. Qed.
+Print Assumptions model_meets_spec.
+Theorem model_meets_spec_readers_long :
+  forall s c temps l,
+    0 <= s -> sorted (c_bounds c) ->
+    Forall (valid_sop temps) l ->
+    Forall (fun op => match op with SRec v => Z.abs v <= 2 ^ 53 | SCollect _ => True end) l ->
+    Z.of_nat (n_rec l) < U64 ->
+    spec_series KLong s c temps l
+      (map (option_map point_of) (run_sops (long_ops s) c temps (sstate0 (length temps)) l)) = [].
+Proof. exact series_meets_spec_long. Qed.
+Print Assumptions model_meets_spec_readers_long.
+
+(* ---- the defaults read from the sources are the OpenTelemetry defaults, sorted, with min/max on ---- *)
+Theorem default_boundaries_spec :
+  map (to_scale 0) kHistDefaultBoundsDouble = otel_default_bounds /\
+  map (to_scale 0) kHistDefaultBoundsLong = otel_default_bounds /\
+  sorted otel_default_bounds /\
+  kHistRecordMinMaxDefaultDouble = true /\ kHistRecordMinMaxDefaultLong = true.
+Proof. exact default_bounds_lemma. Qed.
+Print Assumptions default_boundaries_spec.
